@@ -118,4 +118,20 @@ theorem handle_aux (hasRules : Bool) (rules : List Rule) (req : Req) (backend : 
     cases r.creds <;> by_cases h1 : r.expose.length > 0 <;> simp [h1]
 
 
+theorem foldl_update (cs : List Conf) (t : List (Str × List Rule)) :
+    cs.foldl update t = match cs.reverse.find? confOk with
+      | some c => c.products
+      | none => t := by
+  induction cs generalizing t with
+  | nil => rfl
+  | cons c cs ih =>
+    simp only [List.foldl_cons, List.reverse_cons, List.find?_append]
+    rw [ih]
+    cases hf : cs.reverse.find? confOk with
+    | some c' => rfl
+    | none =>
+      simp only [Option.none_or, List.find?_cons, List.find?_nil, update]
+      cases hc : confOk c <;> simp
+
+
 end BfeVerif.C52
